@@ -27,7 +27,7 @@ ASSUMPTIONS = E1_ASSUMPTIONS + [
     "stdout blocks: each page is followed by one or two newline characters (pages end in a newline, so 'one empty line' "
     "is ambiguous by one); order between directories is not constrained",
     "inputs are diagnostic-free by construction (no log line is expected on stdout in stdout mode)"]
-PROBES = ["mode_stdout", "mode_o", "out_nested_deep", "out_parent", "out_prepopulated", "out_stale_page", "out_new_ancestors",
+PROBES = ["symlinked_module", "input_through_symlink", "output_dir_from_settings_file", "mode_stdout", "mode_o", "out_nested_deep", "out_parent", "out_prepopulated", "out_stale_page", "out_new_ancestors",
           "out_rel", "out_abs", "single_file_input", "stdout_ge_2_pages", "stdout_multi_dir", "config_dir_absent",
           "fault_fired", "fault_run_failed", "settings_affecting_content"]
 
@@ -46,6 +46,7 @@ def swarm(rng, tier):
         "rst_opts": rng.random() < 0.5,
         "config_dir_absent": rng.random() < 0.15,
         "single_inputs": rng.random() < 0.4,
+        "symlinks": rng.random() < 0.3,
     }
 
 
@@ -60,6 +61,12 @@ def strategy(cfg):
         absent = cfg["config_dir_absent"] and draw(st.booleans())
         files = gen.base_files(site, config_dir_exists=not absent)
         files["cfg"] = None
+        symlinks = cfg.get("symlinks") and draw(st.booleans())
+        if symlinks:
+            # a module that lives outside the tree and is linked into it, and a symlinked way to reach the input
+            files["elsewhere/shared_src.cmake"] = "function(zqshared a)\nendfunction()\n"
+            files[posixpath.join(site.proj, "zz_link.cmake")] = {"symlink": "{BASE}/elsewhere/shared_src.cmake"}
+            files["linkroot"] = {"symlink": "{BASE}/" + site.rel if site.rel else "{BASE}"}
         mode = cfg["mode"] if cfg["mode"] != "mixed" else draw(st.sampled_from(["o", "stdout"]))
         cm_files = sorted(f for f in refs.tree_files(site.tree) if refs.is_cmake(f))
         input_kind = "dir"
@@ -109,10 +116,15 @@ def strategy(cfg):
             key, explicit = gen.listing_schedule(draw, [""], site.tree, prefix=site.proj)
             cwd = draw(st.sampled_from(cwds))
             target = input_file or site.proj
-            v = {"cwd": cwd, "input": gen.spell(draw, cwd, target, is_dir=input_kind == "dir"),
+            inp_spelled = gen.spell(draw, cwd, target, is_dir=input_kind == "dir")
+            if symlinks and draw(st.booleans()):
+                inp_spelled = "{BASE}/linkroot/" + (target[len(site.rel) + 1:] if site.rel else target)
+            v = {"cwd": cwd, "input": inp_spelled,
                  "output": "{BASE}/" + out if out_kind == "abs" else gen.spell(draw, cwd, out, is_dir=False,
                                                                                allow_abs=False),
-                 "listing_key": key, "listing_explicit": explicit, "prefix_src": draw(st.integers(0, 2)), "faults": []}
+                 "listing_key": key, "listing_explicit": explicit, "prefix_src": draw(st.integers(0, 2)), "faults": [],
+                 # where the output directory is named: -o, or output.directory of the -s file
+                 "out_src": draw(st.sampled_from(["cli", "cli", "sfile"]))}
             if cfg["faults"] and draw(st.booleans()):
                 n = draw(st.integers(1, 2))
                 for _ in range(n):
@@ -143,14 +155,17 @@ def setup_argv(spec, var, with_o, out_override=None):
     if spec["recursive"] and spec["input_kind"] == "dir":
         argv.append("-r")
     overlay = {}
-    s_text = build_config(None, sfile_in, rst)
+    out_opts = None
+    if with_o and var.get("out_src") == "sfile" and not out_override:
+        out_opts = {"directory": var["output"]}
+    s_text = build_config(None, sfile_in, rst, out_opts)
     u_text = build_config(None, None, user_rst)
     if s_text:
         overlay["cfg/s.yaml"] = s_text
         argv += ["-s", "{BASE}/cfg/s.yaml"]
     if u_text:
         overlay["home/.config/cminx/config.yaml"] = u_text
-    if with_o:
+    if with_o and out_opts is None:
         argv += ["-o", out_override or var["output"]]
     argv.append(var["input"])
     return overlay, argv
@@ -224,6 +239,12 @@ def evaluate(spec, ctx):
                 ctx.probes["out_stale_page"] += 1
         if spec["input_kind"] == "file":
             ctx.probes["single_file_input"] += 1
+        if any(isinstance(c, dict) for c in spec["files"].values()):
+            ctx.probes["symlinked_module"] += 1
+        if any("linkroot" in v["input"] for v in spec["variants"]):
+            ctx.probes["input_through_symlink"] += 1
+        if mode == "o" and any(v.get("out_src") == "sfile" for v in spec["variants"]):
+            ctx.probes["output_dir_from_settings_file"] += 1
         if spec["config_dir_absent"]:
             ctx.probes["config_dir_absent"] += 1
         if spec.get("rst") or spec.get("input_opts") or spec["prefix"]:
